@@ -138,3 +138,84 @@ func VerifC19RetryLoop() {
 	zzverif.Assert(b.GetCurrentRevision() >= cr.Header.Revision, "requests keep flowing after the repair: a later write becomes readable")
 	zzverif.Cover("done")
 }
+
+// vStallStore is an engine one of whose reads does not come back for a while: the iterator of the
+// next Iter after stall is set answers normally, but its Close returns only when release is
+// closed (the caller has everything it asked for, and no engine lock is taken afterwards — natively
+// a lock of the engine would order the late reader after whatever the node did meanwhile).
+type vStallStore struct {
+	storage.KvStorage
+	stall   int32
+	entered chan struct{}
+	release chan struct{}
+}
+
+type vStallIter struct {
+	storage.Iter
+	s *vStallStore
+}
+
+func (s *vStallStore) Iter(ctx context.Context, start, end []byte, ts uint64, limit uint64) (storage.Iter, error) {
+	it, err := s.KvStorage.Iter(ctx, start, end, ts, limit)
+	if err == nil && atomic.CompareAndSwapInt32(&s.stall, 1, 0) {
+		return &vStallIter{it, s}, nil
+	}
+	return it, err
+}
+
+func (it *vStallIter) Close() error {
+	err := it.Iter.Close()
+	it.s.entered <- struct{}{}
+	<-it.s.release
+	return err
+}
+
+// VerifC19RepairStall (run with the race monitor): the repair of a write with unknown outcome reads
+// the key while the engine does not answer; the repair's deadline passes (zzverif.ExpireDeadlines),
+// and only then the engine answers. Whatever the repair does about a read that outlives its
+// deadline, no two unsynchronised accesses conflict, and the write is repaired and the node keeps
+// serving once the engine answers again.
+func VerifC19RepairStall() {
+	retryInterval = 1000 * time.Millisecond
+	checkInterval = 50 * time.Millisecond
+	st := &vStallStore{KvStorage: memkv.NewKvStorage(), entered: make(chan struct{}, 1), release: make(chan struct{})}
+	kv := &vUnknownOnce{KvStorage: st}
+	b := NewBackend(kv, Config{Prefix: vPrefix, EnableEtcdCompatibility: true, WatchCacheSize: 4}, zzmodel.NoMetrics{}).(*backend)
+	b.tso.Init(5)
+	key := vNames[0]
+	c, err := b.Create(vCtx(), &proto.CreateRequest{Key: key, Value: []byte("c")})
+	zzverif.Assert(err == nil && c.Succeeded, "setup create")
+	zzverif.WaitIdle()
+	atomic.StoreInt32(&kv.armed, 1)
+	_, err = b.Update(vCtx(), &proto.UpdateRequest{Kv: &proto.KeyValue{Key: key, Value: []byte("u"), Revision: c.Header.Revision}})
+	zzverif.Assert(err != nil, "unknown outcome is reported as an error")
+	zzverif.WaitIdle()
+	zzverif.Assert(b.asyncFifoRetry.Size() == 1, "the unresolved write is queued for repair")
+	atomic.StoreInt32(&st.stall, 1)
+	zzverif.AdvanceClock()
+	zzverif.FireTickers() // the repair loop ticks and reads the key: the engine does not answer
+	zzverif.WaitIdle()
+	select {
+	case <-st.entered:
+		zzverif.Cover("repair-read-stalled")
+	default:
+		zzverif.Assume(false) // (only the executions in which enough time has passed for the repair loop to act)
+	}
+	zzverif.ExpireDeadlines(2*unaryRpcTimeout + 500*time.Millisecond) // the repair's deadline passes
+	zzverif.WaitIdle()
+	close(st.release) // now the engine answers
+	zzverif.WaitIdle()
+	for i := 0; i < 3 && b.asyncFifoRetry.Size() > 0; i++ {
+		zzverif.AdvanceClock()
+		zzverif.FireTickers()
+		zzverif.WaitIdle()
+	}
+	zzverif.Assert(b.asyncFifoRetry.Size() == 0, "the write is repaired once the engine answers again")
+	g, err := b.Get(vCtx(), &proto.GetRequest{Key: key})
+	zzverif.Assert(err == nil && g.Kv != nil, "the key is readable after the repair")
+	cr, err := b.Create(vCtx(), &proto.CreateRequest{Key: vNames[3], Value: []byte("l")})
+	zzverif.Assert(err == nil && cr.Succeeded, "a later create succeeds")
+	zzverif.WaitIdle()
+	zzverif.Assert(b.GetCurrentRevision() >= cr.Header.Revision, "requests keep flowing after the repair: a later write becomes readable")
+	zzverif.Cover("done")
+}
